@@ -11,6 +11,7 @@ Strings are byte lists: 109 = 'm', 115 = 's', 107 103 = "kg", 46 = '.', 47 = '/'
 42 = '*', 40/41 = '(' ')'.
 -/
 import Barril.Proofs.StrLemmas
+import Barril.Proofs.StrCallerLemmas
 import Barril.Gen.ThmNameownPosc
 import Barril.Gen.Dbs
 
@@ -505,6 +506,62 @@ theorem scalar_pow_eq_quantity_pow (reg : Reg) (q : Quantity) (n : Int) (used : 
     rw [spowLoop_scaled reg q used hm hnd hkeep k q 1 (by omega) (scaleEntries_one q.entries).symm,
       qpowLoop_scaled reg q used used hm (matchOne_idem reg q.entries [] used q.entries hm) hnd hkeep k q 1 (by omega)
         (scaleEntries_one q.entries).symm]
+
+/-! ### the caller keeps and edits what it passed (`Barril/Model/StrCaller.lean`)
+
+A quantity is a value: no object of the caller is reachable from it (`Quantity.__init__` copies every
+`[unit, exponent]` cell, the cache key is a tuple of tuples).  Trivial in the model BY CONSTRUCTION — the point of
+stating it is the correspondence: the check edits the mapping / the lists it passed on the real code, re-reads all
+strings of every quantity made before and compares them exactly with these values. -/
+
+/-- **the strings of a quantity are the same whenever they are asked**: whatever the caller does afterwards — edits
+the mapping or the lists it passed (exponent cell, unit cell, added / removed key), re-uses them for further requests,
+makes other quantities — the `k`-th quantity made stays the value it was -/
+theorem strings_stable_under_caller_mutation (reg : Reg) (s : Caller) (later : List CStep) (k : Nat)
+    (r : Except ErrKind Quantity) (h : s.made[k]? = some r) :
+    (s.run reg later).made[k]? = some r := by
+  obtain ⟨t, ht⟩ := Caller.run_made_prefix reg later s
+  rw [ht, List.getElem?_append_left (by
+    have := (List.getElem?_eq_some_iff.mp h).1
+    exact this)]
+  exact h
+
+/-- **and it is the quantity of the ORIGINAL request**: the quantity a request made is `ObtainQuantity` of the request
+as it was when it was made, after any earlier and any later history (edits of that very mapping included) -/
+theorem request_answered_from_original (reg : Reg) (s : Caller) (before later : List CStep) (r : Req) :
+    (s.run reg (before ++ [CStep.request r] ++ later)).made[(s.run reg before).made.length]?
+      = some (r.obtain reg) := by
+  rw [Caller.run_append, Caller.run_append]
+  apply strings_stable_under_caller_mutation
+  simp [Caller.run, Caller.step]
+
+/-- a request made again with the mapping the caller edited is answered from the mapping as it is THEN (the earlier
+quantity is not handed out again, the cache key holds the cells' contents) -/
+theorem edited_request_answered_as_edited (reg : Reg) (s : Caller) (i : Nat) (ed : Edit) (r : Req)
+    (h : s.held[i]? = some r) :
+    ((s.step reg (.edit i ed)).step reg (.again i)).made = s.made ++ [(ed.apply r).obtain reg] := by
+  have hm : (modifyAt s.held i ed.apply)[i]? = some (ed.apply r) := by
+    clear reg
+    generalize s.held = l at h
+    induction l generalizing i with
+    | nil => simp at h
+    | cons x xs ih =>
+      cases i with
+      | zero => simp at h; simp [modifyAt, h]
+      | succ j => simp at h; simpa [modifyAt] using ih j h
+  simp [Caller.step, hm]
+
+/-- **arithmetic on a quantity uses the factors it was made with**: after any further history (edits of the mapping it
+was requested with included), a product / quotient / power computed from the quantity of a request is the operation
+applied to `ObtainQuantity` of the ORIGINAL request -/
+theorem arithmetic_after_caller_mutation (reg : Reg) (s : Caller) (before later : List CStep) (r : Req) (q : Quantity)
+    (f : Quantity → Except ErrKind Quantity) (h : r.obtain reg = .ok q) :
+    (s.run reg (before ++ [CStep.request r] ++ later ++ [CStep.arith (s.run reg before).made.length f])).made.getLast?
+      = some (f q) := by
+  have h1 := request_answered_from_original reg s before later r
+  rw [h] at h1
+  rw [Caller.run_append, Caller.run_single, Caller.step_arith_ok reg _ _ f q h1]
+  simp
 
 /-! ### non-vacuity: concrete instances, among them the shape the test-suite never had (two and
 three factors after the slash) -/
